@@ -13,6 +13,10 @@ truthiness            truthiness of d.get(k): `d.get(k) or default`, `if d.get(k
                       `v = d.get(k) ... if not v:` -- an entry holding 0, False,
                       "" or an empty container is then treated as absent.  Two
                       reviewed instances on the tree are sanctioned by name.
+shared object in a    a loop stores one and the same freshly built mutable object
+loop                  into a container on every iteration (zero on the reviewed tree).
+length difference     d['..._length'] = a - b without a dominating `if a < b: raise`
+                      (4 guarded stores on the reviewed tree).
 dropped forwarding    f(p=...) calls g, g has a defaulted parameter also named
                       p, and the call does not bind it: g's default silently
                       replaces the caller's value (23 forwarding calls on the
@@ -75,6 +79,95 @@ def dropped_forwarding(repo, m):
                 else:
                     out.append((fn, c, "call of %s does not pass on `%s` (a parameter of both; %s's default is used instead of the caller's value)" % (tgt.name, p, tgt.name)))
     return out, forwarded
+
+
+MUTABLE_CTORS = {"deepcopy", "copy", "dict", "list", "set", "copy.deepcopy", "copy.copy", "defaultdict", "OrderedDict", "bytearray"}
+
+
+def _mutable_expr(e):
+    if isinstance(e, (ast.Dict, ast.List, ast.Set, ast.ListComp, ast.DictComp, ast.SetComp)):
+        return True
+    if isinstance(e, ast.Call):
+        d = dotted(e.func) or ""
+        return d in MUTABLE_CTORS or (d[:1].isupper() and "." not in d)
+    return False
+
+
+def shared_object_in_loop(m):
+    """(function, node, reason) where a loop stores -- d[k] = v, l.append(v), ... -- one and the same mutable object
+    into a container on every iteration: v is a local not rebound inside the loop, every definition of which builds a
+    fresh mutable object (literal, comprehension, copy/deepcopy, dict()/list(), a Capitalised constructor).  The
+    containers then alias each other: filling in one (as the automatic field filling does) changes all."""
+    out = []
+    for fn in [f for f in ast.walk(m.tree) if isinstance(f, (ast.FunctionDef, ast.AsyncFunctionDef))]:
+        for loop in [l for l in ast.walk(fn) if isinstance(l, (ast.For, ast.While))]:
+            bound_in_loop = {x.id for x in ast.walk(loop) if isinstance(x, ast.Name) and isinstance(x.ctx, ast.Store)}
+            for s in ast.walk(loop):
+                v = None
+                if isinstance(s, ast.Assign) and any(isinstance(t, ast.Subscript) for t in s.targets) and isinstance(s.value, ast.Name):
+                    v = s.value.id
+                elif isinstance(s, ast.Call) and isinstance(s.func, ast.Attribute) and s.func.attr in ("append", "insert", "add", "setdefault") and s.args and isinstance(s.args[-1], ast.Name):
+                    v = s.args[-1].id
+                if v is None or v in bound_in_loop:
+                    continue
+                defs = [a.value for a in ast.walk(fn) if isinstance(a, ast.Assign) and any(isinstance(t, ast.Name) and t.id == v for t in a.targets)]
+                if defs and all(_mutable_expr(d) for d in defs):
+                    out.append((fn, s, "the one object `%s` (= %s) is stored on every iteration of the loop at line %d: the containers share it" % (v, short(defs[0], 40), loop.lineno)))
+    return out
+
+
+def length_differences(m):
+    """(violations, guarded count): every store `d['..._length'] = a - b` (a a local, b a local or a constant) must be
+    preceded, in the same function, by a statement `if a < b: raise ...` that every path to the store passes
+    (a statement of the function body or of a block enclosing the store, before the store), with neither a nor b
+    rebound in between: a length field is an unsigned quantity of the bitstream and the serialiser rejects a negative one."""
+    out, guarded = [], 0
+    for fn in [f for f in ast.walk(m.tree) if isinstance(f, (ast.FunctionDef, ast.AsyncFunctionDef))]:
+        for s in ast.walk(fn):
+            if not (isinstance(s, ast.Assign) and len(s.targets) == 1 and isinstance(s.targets[0], ast.Subscript) and isinstance(s.targets[0].slice, ast.Constant) and isinstance(s.targets[0].slice.value, str) and s.targets[0].slice.value.endswith("_length")):
+                continue
+            v = s.value
+            if not (isinstance(v, ast.BinOp) and isinstance(v.op, ast.Sub) and isinstance(v.left, ast.Name) and isinstance(v.right, (ast.Name, ast.Constant))):
+                continue
+            a = v.left.id
+            b = v.right.id if isinstance(v.right, ast.Name) else repr(v.right.value)
+            want = ("%s < %s" % (a, b), "%s > %s" % (b, a))
+            if isinstance(v.right, ast.Constant) and isinstance(v.right.value, int):
+                want += ("%s <= %d" % (a, v.right.value - 1), "%d >= %s" % (v.right.value - 1, a))
+            # statements that dominate the store: earlier siblings in every enclosing block
+            ok = False
+            node = s
+            p = getattr(s, "_parent", None)
+            chain = []
+            while p is not None:
+                for field in ("body", "orelse", "finalbody"):
+                    blk = getattr(p, field, None)
+                    if isinstance(blk, list) and any(x is node for x in blk):
+                        i = [k for k, x in enumerate(blk) if x is node][0]
+                        chain.append(blk[:i])
+                if p is fn:
+                    break
+                node, p = p, getattr(p, "_parent", None)
+            before = [x for blk in reversed(chain) for x in blk]  # program order
+            guard_at = None
+            for i, x in enumerate(before):
+                if isinstance(x, ast.If) and not x.orelse and x.body and isinstance(x.body[-1], ast.Raise) and short_norm(x.test) in want:
+                    guard_at = i
+            if guard_at is not None:
+                later = before[guard_at + 1:]
+                rebound = any(isinstance(n, ast.Name) and isinstance(n.ctx, ast.Store) and n.id in (a, b) for x in later for n in ast.walk(x))
+                ok = not rebound
+            if ok:
+                guarded += 1
+            else:
+                out.append((fn, s, "`%s` is stored into a length field without a dominating `if %s < %s: raise ...` (or %s / %s is rebound after it): the field can go negative" % (short(s, 60), a, b, a, b)))
+    return out, guarded
+
+
+def short_norm(e):
+    from .core import norm
+
+    return norm(e)
 
 
 def stale_lower_bound_guards(m):
@@ -188,6 +281,19 @@ class R(object):
         self.cur = b
     def done(self):
         return not self.cur
+def share(units):
+    hdr = dict(a=1)
+    for u in units:
+        u["hdr"] = hdr
+    for u in units:
+        fresh = dict(a=1)
+        u["other"] = fresh
+def lens(d, total):
+    if total < 2:
+        raise ValueError()
+    d["a_length"] = total - 2
+    total = total - 1
+    d["b_length"] = total - 2
 def h(w, h, n=0):
     return w
 def k(w, n=3):
@@ -223,7 +329,7 @@ def selfcheck():
                 return s
             return None
 
-    if len(swapped_arguments(R(), m)) != 1 or len(stale_lower_bound_guards(m)) != 1 or len(truthiness_presence(m)) != 2 or len(optional_attr_truthiness(m)) != 1 or (len(dropped_forwarding(R(), m)[0]), dropped_forwarding(R(), m)[1]) != (1, 1):
+    if len(swapped_arguments(R(), m)) != 1 or len(stale_lower_bound_guards(m)) != 1 or len(truthiness_presence(m)) != 2 or len(optional_attr_truthiness(m)) != 1 or (len(dropped_forwarding(R(), m)[0]), dropped_forwarding(R(), m)[1]) != (1, 1) or len(shared_object_in_loop(m)) != 1 or (len(length_differences(m)[0]), length_differences(m)[1]) != (1, 1):
         raise AnalysisError("bug-pattern rules no longer recognise their positive fixture")
 
 
@@ -236,5 +342,6 @@ def rule(repo, res, rid, modules):
         st = stale_lower_bound_guards(m)
         tp = [(fn, n, why) for fn, n, why in truthiness_presence(m) if (name, fn.name) not in TRUTHINESS_SANCTIONED] + optional_attr_truthiness(m)
         df, _fw = dropped_forwarding(repo, m)
+        df = df + shared_object_in_loop(m) + length_differences(m)[0]
         bad = ["%s in %s (line %d)" % (why, fn.name, n.lineno) for fn, n, why in sw + df] + ["%s in %s" % (why, fn.name) for fn, n, why in st] + ["%s in %s (line %d)" % (why, fn.name, n.lineno) for fn, n, why in tp]
-        res.check(not bad, rid, "bug-patterns:%s" % name, m.rel, "; ".join(bad), by="no swapped same-named arguments, no lower-bound guard followed by a decrement, no presence-by-truthiness of a dictionary entry, every same-named defaulted parameter passed on")
+        res.check(not bad, rid, "bug-patterns:%s" % name, m.rel, "; ".join(bad), by="no swapped same-named arguments, no lower-bound guard followed by a decrement, no presence-by-truthiness of a dictionary entry, every same-named defaulted parameter passed on, no loop storing one fresh mutable object into many containers, every `x - y` stored into a length field dominated by `if x < y: raise`")
